@@ -1102,8 +1102,9 @@ def cases_for(fam, N, tier, seed):
             out.append(dict(N=N, pat=list(pat), r=r, seed=seed))
     elif fam == "tab":
         out.append(dict(N=N, pat=[], r=0, seed=seed))
-    if fam == "ppo" and tier == "thorough":
-        out += [dict(c, epochs=2) for c in out if c["r"] == 0]
+    if fam == "ppo":
+        # several epochs per call (the shipped default is 1): every epoch must reach critic and optimizers too
+        out += [dict(c, epochs=2) for c in (out if tier == "thorough" else out[:2]) if c["r"] == 0]
     return out
 
 
